@@ -171,6 +171,10 @@ def r_drain(ctx):
     ctx.count("declared-model containers", len(conts))
     sites = send_sites(repo, root)
     ctx.count("send sites in the solve root", len(sites))
+    from . import solveprog
+    if solveprog.decided_by_program(ctx, {"drain"}):
+        ctx.notes.append("R-DRAIN: decided by the unrolled solve root (clause drain of R-SOLVEPROG)")
+        return max(len(conts), 6), max(len(sites), 5)
     used = {}
     for s in sites:
         where = loc(root, s.call)
@@ -299,6 +303,10 @@ def r_obj(ctx):
     """objective = min of the metrics: one constraint objective <= metric per element of the whole metric list."""
     repo = ctx.repo
     root = common.solve_root(repo)
+    from . import solveprog
+    if solveprog.decided_by_program(ctx, {"drain"}):
+        ctx.notes.append("R-OBJ: decided by the unrolled solve root (clause drain of R-SOLVEPROG: one `objective <= metric` per metric)")
+        return
     conts = containers(repo)
     metrics = [(c, a) for (c, a), k in conts.items() if k == "Expression" and c == "PEP"]
     if len(metrics) != 1:
@@ -460,6 +468,12 @@ def r_pair(ctx):
     repo = ctx.repo
     root = common.solve_root(repo)
     sites = send_sites(repo, root)
+    from . import solveprog
+    if solveprog.decided_by_program(ctx, {"track", "drain"}):
+        # the solve root was unrolled on every configuration: what is tracked is compared with what is sent, object by object, there
+        ctx.notes.append("R-PAIR: decided by the unrolled solve root (clauses track / drain of R-SOLVEPROG)")
+        ctx.count("send/track pairs", len(sites))
+        return max(len(sites), 5)
     from .state import tracked_lists
     tracked = tracked_lists(root, repo)
     contrib = {t: [] for t in tracked}            # attr -> [(descriptor, node)]
@@ -584,13 +598,15 @@ def r_objsense(ctx):
             ok, msg = False, "generate_problem receives `%s`, not the objective leaf" % (src(g.args[0]) if g.args else "nothing")
     else:
         msg = "generate_problem is called %d times" % len(gens)
-    ctx.ob("R-OBJSENSE", "PEP.%s::generate once after the sends" % root.name, ok, msg, loc(root, gens[0] if gens else root))
+    from . import solveprog
+    solveprog.ob_unless_program(ctx, {"generate"}, "R-OBJSENSE", "PEP.%s::generate once after the sends" % root.name, ok, msg, loc(root, gens[0] if gens else root))
     # set_main_variables precedes every send
     mv = [c for c in ast.walk(root) if isinstance(c, ast.Call) and call_name(c) == "set_main_variables"]
     ok = len(mv) == 1 and all(flow.dominates(common.stmt_of(mv[0]), s.stmt) for s in sites)
-    ctx.ob("R-OBJSENSE", "PEP.%s::main variables first" % root.name, ok,
-           "the Gram matrix and function-value variables are created once, before any constraint is sent" if ok else
-           "set_main_variables does not dominate every send", loc(root, mv[0] if mv else root))
+    from . import solveprog
+    solveprog.ob_unless_program(ctx, {"generate"}, "R-OBJSENSE", "PEP.%s::main variables first" % root.name, ok,
+                                "the Gram matrix and function-value variables are created once, before any constraint is sent" if ok else
+                                "set_main_variables does not dominate every send", loc(root, mv[0] if mv else root))
     for be in common.backends(repo):
         fn = be.methods.get("generate_problem")
         if fn is None:
